@@ -3,16 +3,30 @@ import MythVerif.Proofs.WsQueueTsoTac
 namespace MythVerif.WsqTso
 open MythVerif.Wsq
 
-set_option maxHeartbeats 1000000 in
+set_option maxHeartbeats 4000000 in
 theorem o_pt8 (s s' : St) (e b) : Inv s → s.opc = .pt8 e b → stepO s = some s' → Inv s' := by
   intro h heq hs
+  obtain ⟨hbeq, hsh⟩ := h.pt8 e b heq
   cases h
   simp only [stepO, heq] at hs
   simp at hs; subst hs
   simp only [heq, ownerLocked, carry, resetting, ownerFlight] at *
-  tso_finish
+  constructor
+  all_goals (try simp only [ownerLocked, carry, resetting, ownerFlight, upd_apply, applySto])
+  case pt9 =>
+    intro _
+    subst hbeq
+    rcases hsh with hp | ⟨h2, h3, h4, h5⟩
+    · exact Or.inl ⟨e, by simpa using rcpre_append _ _ _ _ _ _ (.baseI (s.lb + s.sh - 1) e) hp⟩
+    · refine Or.inr ⟨h2, h3, h4, ?_⟩
+      rw [h2] at h5 ⊢
+      simp only [Int.add_zero] at h5 ⊢
+      rcases h5 with ⟨h6, h7⟩ | h6
+      · exact Or.inr (Or.inl ⟨e, by simp [h6], h7⟩)
+      · exact Or.inl ⟨e, by simp [h6]⟩
+  tso_rest
 
-set_option maxHeartbeats 1000000 in
+set_option maxHeartbeats 4000000 in
 theorem o_pt9 (s s' : St) : Inv s → s.opc = .pt9 → stepO s = some s' → Inv s' := by
   intro h heq hs
   have hcfg := h.cfg
